@@ -790,6 +790,7 @@ def apply_as_grid_ufunc(
             dask,
             **kwargs,
         )
+        # one (absent) vector partner per result: the results need not be as many as the inputs
         results = _pad_then_rechunk(
             unpadded_results,
             grid,
@@ -797,7 +798,7 @@ def apply_as_grid_ufunc(
             boundary_width_real_axes,
             boundary,
             fill_value,
-            other_component,
+            [None] * len(unpadded_results),
         )
 
     # TODO add option to trim result if not done in ufunc
